@@ -241,7 +241,7 @@ def gen_param_hierarchy(rng):
   L.append(f"      s.o @= {expr}")
   pool = sorted(set(defaults) | {0, 1, rng.randrange(8)})
   ninst = rng.randrange(2, 7)
-  calls = []
+  calls = []; npos_of = []
   for _ in range(ninst):
     npos = rng.randrange(0, nd + 1)
     args = [str(rng.choice(pool)) for _ in range(npos)]
@@ -250,6 +250,7 @@ def gen_param_hierarchy(rng):
         args.append(f"{n}={rng.choice(pool)}")
     if rng.random() < 0.3: rng.shuffle(args[npos:]) if False else None
     calls.append("PLeaf(T" + "".join(", " + a for a in args) + ")")
+    npos_of.append(npos)
   L += ["class PMid(Component):", "  def construct(s, T, sel):", "    s.i = InPort(T)"]
   half = max(1, ninst // 2)
   L += [f"    s.o = [OutPort(T) for _ in range({ninst})]", "    if sel == 0:"]
@@ -262,6 +263,16 @@ def gen_param_hierarchy(rng):
         f"    s.o = [OutPort(T) for _ in range({2 * ninst})]", "    s.m0 = PMid(T, 0); s.m1 = PMid(T, 1)",
         "    s.m0.i //= s.i; s.m1.i //= s.i",
         f"    for k in range({ninst}):", "      s.o[k] //= s.m0.o[k]", f"      s.o[{ninst} + k] //= s.m1.o[k]"]
+  # set_param overrides (applied by the harness before elaboration) of parameters the call does not pass positionally
+  groups = [list(range(0, half)), list(range(half, ninst)) or [0]]
+  setp = []
+  for mi, g in enumerate(groups):
+    for k, inst in enumerate(g):
+      free = pnames[npos_of[inst]:]
+      if free and rng.random() < 0.35:
+        chosen = rng.sample(free, rng.randrange(1, len(free) + 1))
+        setp.append((f"top.m{mi}.l[{k}].construct", {n: rng.choice(pool) for n in chosen}))
+  L.append("SETP = " + repr(setp))
   return "\n".join(L) + "\n"
 
 
@@ -271,7 +282,10 @@ def param_stream(sh, backend, n, mech_fn, tag="param"):
     src = gen_param_hierarchy(rng)
     mod = G.load_source(src, "par")
     try:
-      top = mod.PTop(); top.elaborate()
+      top = mod.PTop()
+      for path, kw in mod.SETP:
+        top.set_param(path, **kw); sh.count("set_param_overrides")
+      top.elaborate()
       r = judge_text(sh, backend, top, tag, src, (tag, case), mech_fn, ncyc=8, rng=rng, count_key="param_designs_cosimulated")
       if case < 1 and sh.idx == 0:
         sh.sample({"param_hierarchy_source": src[:1200]})
